@@ -461,6 +461,10 @@ class Prov:
         rt = sub.local_tree(0)
         if strip(rt)[0] in ("unknown",) or _has_unknown(rt):
             return None
+        # a helper whose value depends on a branch stays a call: an expression tree has no room for the branch
+        # conditions; conds.expand_literals reads them from the helper when the call decides a branch in the caller
+        if _has_phi(rt):
+            return None
         return _subst_params(rt, {i + 1: a for i, a in enumerate(args)})
 
     def call_tree(self, t, depth=0):
@@ -493,6 +497,25 @@ class Prov:
             if st["k"] == "adt":
                 key = "%s::<%s as %s>::%s" % (st["path"].rsplit("::", 1)[0], st["name"], c["trait"], c["name"])
         return ("call", key, c["name"], args)
+
+
+def _has_phi(t, depth=0):
+    if depth > 80:
+        return True
+    k = t[0]
+    if k == "phi":
+        return True
+    if k == "call":
+        return any(_has_phi(a, depth + 1) for a in t[3])
+    if k == "bin":
+        return _has_phi(t[2], depth + 1) or _has_phi(t[3], depth + 1)
+    if k in ("un", "cast"):
+        return _has_phi(t[2], depth + 1)
+    if k == "agg":
+        return any(_has_phi(s_, depth + 1) for _, s_ in t[3])
+    if k in ("ref", "deref", "discr", "promoted", "field"):
+        return _has_phi(t[1], depth + 1)
+    return False
 
 
 _NUMERIC = {"u8", "u16", "u32", "u64", "u128", "usize", "i8", "i16", "i32", "i64", "i128", "isize", "f32", "f64", "bool"}
